@@ -1053,10 +1053,14 @@ class PhaseField(_IModel):
 
             # elements and pdgs where eigenvalues 1 and 2 are different
             v1_m_v2 = val_e_pg[..., 0] - val_e_pg[..., 1]  # val1 - val2
-            v1_m_v2[v1_m_v2 == 0] = 1
+            equal = v1_m_v2 == 0
+            v1_m_v2[equal] = 1
 
             # compute BetaP and BetaM [e,pg]
-            BetaP = (valp[..., 0] - valp[..., 1]) / v1_m_v2
+            # (repeated eigenvalue: the difference quotient becomes the derivative)
+            BetaP = np.where(
+                equal, dvalp[..., 0], (valp[..., 0] - valp[..., 1]) / v1_m_v2
+            )
             # BetaM = (valm[..., 0] - valm[..., 1]) / v1_m_v2
 
             # compute gammap and gammam
@@ -1103,15 +1107,25 @@ class PhaseField(_IModel):
             # thetam = dvalm / 2 # [Remark M]
 
             v1_m_v2 = val_e_pg[..., 0] - val_e_pg[..., 1]
-            v1_m_v2[v1_m_v2 == 0] = 1
             v1_m_v3 = val_e_pg[..., 0] - val_e_pg[..., 2]
-            v1_m_v3[v1_m_v3 == 0] = 1
             v2_m_v3 = val_e_pg[..., 1] - val_e_pg[..., 2]
-            v2_m_v3[v2_m_v3 == 0] = 1
 
-            thetap[..., 0] = (valp[..., 0] - valp[..., 1]) / (2 * v1_m_v2)
-            thetap[..., 1] = (valp[..., 0] - valp[..., 2]) / (2 * v1_m_v3)
-            thetap[..., 2] = (valp[..., 1] - valp[..., 2]) / (2 * v2_m_v3)
+            # repeated eigenvalues: the difference quotient becomes the derivative
+            eq12, eq13, eq23 = v1_m_v2 == 0, v1_m_v3 == 0, v2_m_v3 == 0
+            v1_m_v2[eq12] = 1
+            v1_m_v3[eq13] = 1
+            v2_m_v3[eq23] = 1
+
+            thetap[..., 0] = np.where(
+                eq12, dvalp[..., 0], (valp[..., 0] - valp[..., 1]) / v1_m_v2
+            )
+            thetap[..., 1] = np.where(
+                eq13, dvalp[..., 0], (valp[..., 0] - valp[..., 2]) / v1_m_v3
+            )
+            thetap[..., 2] = np.where(
+                eq23, dvalp[..., 1], (valp[..., 1] - valp[..., 2]) / v2_m_v3
+            )
+            thetap /= 2
 
             # [Remark M]
             # thetam[..., 0] = (valm[..., 0] - valm[..., 1]) / (2 * v1_m_v2)
